@@ -77,12 +77,28 @@ def register(prop):
          "non-trivial = >=1 episode judged; distinct = distinct (config, episode scripts)",
          assumptions=["encryption/label/compression are off in this bench (orthogonal; covered by C12/C14/C15)", "events placed exactly at a deadline instant are treated as ambiguous"])
 
+    prop("C08", [dict(scn="C08M", quick=2000, thorough=200000, wall_quick=60, wall_thorough=600), dict(scn="C08L", quick=400, thorough=40000, wall_quick=120, wall_thorough=2400)],
+         "C08M (bench): ownership matrix holder{alive,suspect,dead-recent,dead-older-than-reclaim,left-recent,left-old} x DeadNodeReclaimTime{0,300ms,60s} x claimed address{same,other IP,"
+         "other port} x claim incarnation{lower,equal,higher} x carrier{direct,UDP,push/pull}: all 486 cells enumerated completely every run, then random cells with other base "
+         "incarnations; oracle: address of an alive/suspect/recently-dead holder never changes and NotifyConflict fires exactly once with (existing, other); left => accepted at once "
+         "(join event at the new address); dead => iff reclaim time positive and elapsed. C08L (cluster-interleave): 2-5 real nodes, Leave(timeout) at a PRNG instant, optionally twice "
+         "(concurrently or later), forged suspect/dead/alive about the leaver (incarnation own-1..own+1) delivered inside the window opened by the two Leave yield sites; oracles: "
+         "nil return => a self-signed dead message was handed to the transport by then; every peer that listed the leaver records it left (not dead) within the C05 budget and its log "
+         "ends with leave; no resurrection on any node; the leaver never lists itself again; non-trivial = leaver was listed by a peer and Leave ran; " + FP,
+         assumptions=["GossipToTheDeadTime exceeds the run length in C08L (no reaping of the departed record: SWIM's retention window is not the no-resurrection guarantee)",
+                      "no crashes in C08L plans, so every listed peer is live"],
+         extra={"grid_cells": 486})
+
 NOT_CLAIMED = {}
 
 SIM_NOTE = ("trusted base: Go runtime + testing/synctest fake clock, the harness (scheduler, SimNet, oracles) under /verif/sim; "
             "assumes the guarded yield sites are the relevant preemption points; seeded search, not proof")
 
 META = {
+ "C08": dict(
+    level_text="Complete enumeration of the 486-cell name/address ownership matrix against a real node in virtual time (record age vs reclaim time exact), plus seeded cluster runs in which the scheduler interleaves Leave with forged accusations at the Leave yield sites; oracles over the wire tap (self-signed dead sent before a nil return), peers' records (left, not dead), event logs and a per-step no-resurrection monitor.",
+    design_ref="DESIGN.md §3 C08", level_note=SIM_NOTE,
+    technique="deterministic simulation: exhaustive ownership grid in bench mode + seeded Leave/accusation interleavings at yield hooks in cluster mode"),
  "C19": dict(
     level_text="Scripted puppets place acks, nacks and TCP replies at exact virtual instants relative to ProbeTimeout and the awareness-scaled deadline; the probe outcome, relay behaviour, handler clean-up and health score are compared with a reference computed from the delivered script.",
     design_ref="DESIGN.md §3 C19", level_note=SIM_NOTE,
